@@ -14,7 +14,7 @@ from ..model import qual
 from ..symx import Expander, TupleV, ListV
 from ..anf import R, Unsupported
 from .. import anf
-from .common import struct_ob, formula_ob, guard, last_return
+from .common import struct_ob, formula_ob, guard, last_return, U
 from ..report import AnalysisError, Ob
 
 COV = "inference/gp/covariance.py"
@@ -46,8 +46,10 @@ def identity_attrs(prog, ci):
         v = value
         if isinstance(v, ast.BinOp) and isinstance(v.op, ast.Mult) and isinstance(v.left, ast.Constant):
             v = v.right
-        if isinstance(v, ast.Call) and ast.unparse(v.func) in ("eye", "identity"):
-            out.add("self." + ast.unparse(st.targets[0]).split(".", 1)[1])
+        elif isinstance(v, ast.BinOp) and isinstance(v.op, ast.Mult) and isinstance(v.right, ast.Constant):
+            v = v.left
+        if isinstance(v, ast.Call) and U(v.func) in ("eye", "identity"):
+            out.add("self." + U(st.targets[0]).split(".", 1)[1])
     return out
 
 
@@ -105,7 +107,7 @@ def run(prog, tier):
         if kname == "HeteroscedasticNoise":
             # its gradient list pairs two sequences element-wise (checked structurally below); only K is expanded
             env_h = {cag.args.args[1].arg: theta}
-            gstmt = [s_ for s_ in cag.body if isinstance(s_, ast.Assign) and ast.unparse(s_.targets[0]) == "grads"]
+            gstmt = [s_ for s_ in cag.body if isinstance(s_, ast.Assign) and U(s_.targets[0]) == "grads"]
             if len(gstmt) != 1:
                 raise AnalysisError("anchor vanished: grads definition in HeteroscedasticNoise.covariance_and_gradients")
             guard(lambda: ex.run_until(cag.body, env_h, gstmt[0]))
@@ -153,8 +155,8 @@ def run(prog, tier):
     # heteroscedastic: grads = [s * dk for s, dk in zip(sigma_sq, self.dK)], dK[i] = 2 E_ii
     ci = prog.cls("HeteroscedasticNoise")
     cag = ci.methods["covariance_and_gradients"]
-    txt = ast.unparse(cag)
-    psd = ast.unparse(ci.methods["pass_spatial_data"])
+    txt = U(cag)
+    psd = U(ci.methods["pass_spatial_data"])
     ok = ("grads = [s * dk for s, dk in zip(sigma_sq, self.dK)]" in txt and "sigma_sq = exp(2 * theta)" in txt
           and "K = diag(sigma_sq)" in txt and "A[i, i] = 2.0" in psd and "A = zeros([self.n_params, self.n_params])" in psd
           and "self.dK.append(A)" in psd and "for i in range(self.n_params)" in psd)
@@ -206,16 +208,16 @@ def _changepoint(prog, cp):
     forms = {}
     for mname in ("__call__", "build_covariance", "covariance_and_gradients"):
         fn = cp.methods.get(mname)
-        loops = [l for l in fn.body if isinstance(l, ast.For) and ast.unparse(l.iter) == "self.cp_slc"]
+        loops = [l for l in fn.body if isinstance(l, ast.For) and U(l.iter) == "self.cp_slc"]
         if len(loops) != 1:
             raise AnalysisError(f"anchor vanished: change-point loop in ChangePoint.{mname}")
         lp = loops[0]
         # idiom: kernel_coeffs[-1] *= A ; kernel_coeffs.append(B)
-        aug = [s for s in lp.body if isinstance(s, ast.AugAssign) and ast.unparse(s.target) == "kernel_coeffs[-1]" and isinstance(s.op, ast.Mult)]
+        aug = [s for s in lp.body if isinstance(s, ast.AugAssign) and U(s.target) == "kernel_coeffs[-1]" and isinstance(s.op, ast.Mult)]
         app = [s for s in lp.body if isinstance(s, ast.Expr) and isinstance(s.value, ast.Call)
-               and ast.unparse(s.value.func) == "kernel_coeffs.append"]
-        init = [s for s in fn.body if isinstance(s, ast.Assign) and ast.unparse(s.targets[0]) == "kernel_coeffs"]
-        ok_idiom = (len(aug) == 1 and len(app) == 1 and len(init) == 1 and ast.unparse(init[0].value) == "[1.0]"
+               and U(s.value.func) == "kernel_coeffs.append"]
+        init = [s for s in fn.body if isinstance(s, ast.Assign) and U(s.targets[0]) == "kernel_coeffs"]
+        ok_idiom = (len(aug) == 1 and len(app) == 1 and len(init) == 1 and U(init[0].value) == "[1.0]"
                     and lp.body.index(aug[0]) < lp.body.index(app[0]))
         ex = Expander(prog, cp.module, cp)
         ex.scalar_names = {"theta[slc][0]", "theta[slc][1]"}
@@ -227,7 +229,7 @@ def _changepoint(prog, cp):
             env[fn.args.args[2].arg] = R.sym("x")
 
         def hook(e, node, env_):
-            f = ast.unparse(node.func)
+            f = U(node.func)
             if f == "self.logistic_and_gradient":
                 w = e.inline(cp.module, cp, cp.methods["logistic"], node, env_)
                 return TupleV([w, ListV([R.sym("dw")])])
@@ -283,12 +285,12 @@ def _composite(prog):
     for mname, w in want.items():
         fn = cc.methods.get(mname)
         ret = last_return(fn)
-        ok = ret is not None and ast.unparse(ret.value) == w
+        ok = ret is not None and U(ret.value) == w
         out.append(struct_ob("composite-structure", qual(cc, fn), ok,
-                             f"a sum of kernels must add each component evaluated on its own slice of theta: `{ast.unparse(ret.value) if ret else None}`",
+                             f"a sum of kernels must add each component evaluated on its own slice of theta: `{U(ret.value) if ret else None}`",
                              COV, fn.lineno))
     fn = cc.methods.get("covariance_and_gradients")
-    txt = ast.unparse(fn)
+    txt = U(fn)
     ok = ("comp.covariance_and_gradients(theta[slc]) for comp, slc in zip(self.components, self.slices)" in txt
           and "K = sum((r[0] for r in results))" in txt and "[gradients.extend(r[1]) for r in results]" in txt
           and "return (K, gradients)" in txt)
@@ -296,33 +298,33 @@ def _composite(prog):
                          "value = sum of component values; gradients = component gradient lists concatenated in component order", COV, fn.lineno))
     # composition order: slices, labels, bounds built over self.components in order
     psd = cc.methods.get("pass_spatial_data")
-    txt = ast.unparse(psd)
+    txt = U(psd)
     ok = ("self.slices = slice_builder([c.n_params for c in self.components])" in txt
           and "for i, comp in enumerate(self.components):" in txt and "self.hyperpar_labels.extend(labels)" in txt)
     out.append(struct_ob("composition-order", qual(cc, psd), ok, "slices and labels must be built over the components in order", COV, psd.lineno))
     eb = cc.methods.get("estimate_hyperpar_bounds")
-    ok = "[self.bounds.extend(comp.bounds) for comp in self.components]" in ast.unparse(eb)
+    ok = "[self.bounds.extend(comp.bounds) for comp in self.components]" in U(eb)
     out.append(struct_ob("composition-order", qual(cc, eb), ok, "bounds must be concatenated over the components in order", COV, eb.lineno))
     add = prog.cls("CovarianceFunction").methods.get("__add__")
-    ok = "return CompositeCovariance([*K1, *K2])" in ast.unparse(add)
+    ok = "return CompositeCovariance([*K1, *K2])" in U(add)
     out.append(struct_ob("composition-order", qual(prog.cls("CovarianceFunction"), add), ok,
                          "k1 + k2 must keep the left operand's components first", COV, add.lineno))
     sb = prog.function(COV, "slice_builder")
-    txt = [ast.unparse(s) for s in sb.body if not (isinstance(s, ast.Expr) and isinstance(s.value, ast.Constant))]
+    txt = [U(s) for s in sb.body if not (isinstance(s, ast.Expr) and isinstance(s.value, ast.Constant))]
     ok = txt == ["slices = [slice(0, lengths[0])]",
                  "for L in lengths[1:]:\n    last = slices[-1].stop\n    slices.append(slice(last, last + L))", "return slices"]
     out.append(struct_ob("composition-order", "inference.gp.covariance.slice_builder", ok,
                          f"slices must be contiguous: start_(k+1) = stop_k, length = the component's parameter count: {txt}", COV, sb.lineno))
     # change-point layout: kernels first, then (location, width) pairs; bounds interleaved the same way
     cp = prog.cls("ChangePoint")
-    psd = ast.unparse(cp.methods["pass_spatial_data"])
-    ehb = ast.unparse(cp.methods["estimate_hyperpar_bounds"])
+    psd = U(cp.methods["pass_spatial_data"])
+    ehb = U(cp.methods["estimate_hyperpar_bounds"])
     ok = ("param_counts = [K.n_params for K in self.cov]" in psd and "param_counts.extend([2] * (self.n_kernels - 1))" in psd
           and "self.cov_slc = slices[:self.n_kernels]" in psd and "self.cp_slc = slices[self.n_kernels:]" in psd
           and "label_groups.append([f'ChngPnt{i} location', f'ChngPnt{i} width'])" in psd
           and "chain.from_iterable(zip(self.location_bounds, self.width_bounds))" in ehb
           and "for cov in self.cov:" in ehb and "self.bounds.extend(cov.bounds)" in ehb)
-    lg = ast.unparse(cp.methods["logistic"])
+    lg = U(cp.methods["logistic"])
     ok = ok and "z = (x - theta[0]) / theta[1]" in lg
     out.append(struct_ob("composition-order", qual(cp, cp.methods["pass_spatial_data"]), ok,
                          "change-point parameters must be laid out kernels first, then (location, width) per change-point, in slices, "
@@ -359,7 +361,7 @@ def _means(prog):
         res = guard(lambda: ex.run(mg.body, {mg.args.args[1].arg: theta}))
         ok_val = isinstance(res, TupleV) and isinstance(res.items[0], R) and untag(res.items[0]).eq(vb)
         # gradient list: [ones] + rows of dx.T (+ rows of dx_sqr.T): d value / d theta_k
-        txt = ast.unparse(mg)
+        txt = U(mg)
         if mc.name == "ConstantMean":
             okg = "[ones(self.n_data)]" in txt
         elif mc.name == "LinearMean":
